@@ -1,6 +1,7 @@
 import Std.Data.HashSet
 import Driver.Util
 import Driver.C15
+import Driver.Store
 /-! Line-protocol driver. Usage: `drv <property>`; stdin: `op args… | impl-output`;
     stdout: one `MISMATCH`/`MONITOR` line per problem and a final `DONE` summary with coverage tags. -/
 open Drv
@@ -39,13 +40,35 @@ partial def loopStateless (step : List String → String → Res) (h : IO.FS.Str
                             seen := if r.nontrivial then acc.seen.insert (hash inp) else acc.seen }
   if !r.skipCompare then
     acc := { acc with compared := acc.compared + 1 }
-    if r.model != impl then
+    if r.model != (r.implView.getD impl) then
       acc := { acc with mismatches := acc.mismatches + 1 }
       IO.println s!"MISMATCH line={n} model=[{r.model}] impl=[{impl}] input=[{inp}]"
   for m in r.monitor do
     acc := { acc with monitorFails := acc.monitorFails + 1 }
     IO.println s!"MONITOR line={n} clause={m} impl=[{impl}] input=[{inp}]"
   loopStateless step h acc
+
+/-- stateful properties: the model state is threaded through the lines -/
+partial def loopStateful {σ : Type} (step : σ → List String → String → σ × Res) (h : IO.FS.Stream) (st : σ) (acc : DAcc) : IO DAcc := do
+  let line ← h.getLine
+  if line.isEmpty then return acc
+  let line := (line.dropEndWhile (fun c => c == '\n' || c == '\r')).toString
+  if line.isEmpty || line.startsWith "#" then loopStateful step h st acc else
+  let (inp, impl) := splitLine line
+  let (st', r) := step st (words inp) impl
+  let n := acc.lines + 1
+  let mut acc := { acc with lines := n, tags := r.tags.foldl bump acc.tags,
+                            nontrivial := acc.nontrivial + (if r.nontrivial then 1 else 0),
+                            seen := if r.nontrivial then acc.seen.insert (hash inp) else acc.seen }
+  if !r.skipCompare then
+    acc := { acc with compared := acc.compared + 1 }
+    if r.model != (r.implView.getD impl) then
+      acc := { acc with mismatches := acc.mismatches + 1 }
+      IO.println s!"MISMATCH line={n} model=[{r.model}] impl=[{impl}] input=[{inp}]"
+  for m in r.monitor do
+    acc := { acc with monitorFails := acc.monitorFails + 1 }
+    IO.println s!"MONITOR line={n} clause={m} impl=[{impl}] input=[{inp}]"
+  loopStateful step h st' acc
 
 def finish (acc : DAcc) : IO Unit := do
   let tags := " ".intercalate (acc.tags.map fun p => s!"{p.1}={p.2}")
@@ -55,5 +78,7 @@ def main (args : List String) : IO UInt32 := do
   let h ← IO.getStdin
   match args with
   | ["C15"] => finish (← loopStateless Drv.C15.step h {})
+  | ["inrange"] => finish (← loopStateless Drv.Store.inRangeStep h {})
+  | ["store", prop] => finish (← loopStateful (Drv.Store.step prop) h {} {})
   | _ => IO.eprintln "usage: drv <property>"; return 2
   return 0
